@@ -1,6 +1,7 @@
 """C20 — trajectory look-ups return the first row satisfying the query."""
 import math
 
+from vlib import shotgen as sg
 from vlib.common import Corr, Failure, f2b, import_repo
 
 ID = 'C20'
@@ -138,6 +139,12 @@ def search(chk, broken):
         p = rng.randrange(ln) if ln else 0
         hs = [float(i) if i <= p else float(2 * p - i) for i in range(ln)]
         hit = pbc.HitResult(None, make_rows(pbc, times, dists, hs), True)
+        shown = ''
+        if rng.random() < 0.4 and ln:
+            # a long-lived result whose rows have been shown in other units (the display idiom `q << unit` re-labels a quantity in place,
+            # magnitudes untouched): every look-up must still answer by magnitude
+            sg.scramble_units(pbc, rng, *[r for r in hit.trajectory if rng.random() < 0.6])
+            shown = ' [after some rows were displayed in other units]'
         for q in queries(rng, dists):
             evals += 1
             exp = next((i for i, d in enumerate(dists) if (U.Foot(d) >> U.Foot) >= q), -1)
@@ -152,7 +159,7 @@ def search(chk, broken):
             except ArithmeticError:
                 ok_r = exp2 < 0
             if got != exp or got2 != exp2 or not ok_t or not ok_r:
-                chk.failures.append(Failure('distance-lookup', f'distances {dists} query {q}: helper {got}, accessor {got2}, scan {exp}/{exp2}, time {tm}',
+                chk.failures.append(Failure('distance-lookup', f'distances {dists} query {q}{shown}: helper {got}, accessor {got2}, scan {exp}/{exp2}, time {tm}',
                                             {'op': 'distance', 'dists': dists, 'q': q, 'observed': [got, got2], 'expected': [exp, exp2]}))
         for q in queries(rng, times):
             if q < 0:
